@@ -429,11 +429,164 @@ def fault_kind(spec):
     return {"flip": "flipped_bit", "file": "misdirected_read"}.get(k, "wrong_encoding")
 
 
+# ------------------------------------------------------------------ C18
+
+def c18_pairs(sc, tier):
+    pairs = []
+    for p in sc.corpus_index:
+        if p["class"] == "production" and tier == "quick":
+            continue
+        if p["size"] > 6000 and tier == "quick":
+            continue
+        for d in p["data"]:
+            if d["size"] <= (40000 if tier == "quick" else 400000):
+                pp = p["path"] if os.path.isabs(p["path"]) else os.path.join(sc.src, p["path"])
+                dp = d["path"] if os.path.isabs(d["path"]) else os.path.join(sc.src, d["path"])
+                pairs.append((pp, dp))
+    return pairs
+
+
+def c18_minimise(ex, h, viol, budget=40):
+    """Drop steps (never the violating run step) while the same violation signature persists."""
+    import c18
+    steps = h["steps"]
+    target = viol["step"]
+    keep = list(range(target + 1))
+    tries = 0
+    i = len(keep) - 2
+    while i >= 0 and tries < budget:
+        cand = keep[:i] + keep[i + 1:]
+        hh = {"id": h["id"], "steps": [steps[j] for j in cand]}
+        tries += 1
+        try:
+            _, v = ex.run_history(hh)
+        except HarnessError:
+            v = None
+        if v and v["sig"] == viol["sig"] and v["step"] == len(cand) - 1:
+            keep = cand
+        i -= 1
+    hh = {"id": h["id"], "steps": [steps[j] for j in keep]}
+    return hh, tries
+
+
+def check_c18(tier, seed):
+    import c18
+    from concurrent.futures import ThreadPoolExecutor
+    t0 = time.time()
+    sc = vlib.Scratch()
+    sc.prepare(plain=True)
+    sc.corpus()
+    simacv = sc.build("./cmd", "simacv")
+    acv_plain = sc.build("./cmd", "acv-plain", plain=True)
+    pairs = c18_pairs(sc, tier)
+    n_hist = 160 if tier == "quick" else 6000
+    rnd = random.Random(seed)
+    hists = [c18.gen_history(random.Random(vlib.splitmix(seed + i)), pairs, i) for i in range(n_hist)]
+    cache = {}
+    ex = c18.Exec(sc, simacv, cache)
+
+    def one(h):
+        return h, ex.run_history(h)
+
+    recs, viols = [], []
+    with ThreadPoolExecutor(max_workers=vlib.NCPU) as pool:
+        for h, (rec, v) in pool.map(one, hists):
+            recs.append((h, rec))
+            if v:
+                viols.append((h, rec, v))
+    known = vlib.load_known("C18")
+    rdir = vlib.out_dir("replays")
+    nviol = 0
+    by_sig = {}
+    for h, rec, v in viols:
+        by_sig.setdefault(v["sig"], []).append((h, rec, v))
+    for sig, items in sorted(by_sig.items()):
+        km = vlib.match_known(known, sig)
+        if km:
+            print("KNOWN-FINDING: property=C18 %s (%s; %d histories)" % (km[1], sig, len(items)), flush=True)
+            continue
+        if nviol >= 3:
+            continue
+        h, rec, v = min(items, key=lambda x: x[2]["step"])
+        hh, tries = c18_minimise(ex, h, v)
+        # portable paths: the replay rebuilds its own scratch copy
+        for st in hh["steps"]:
+            if st.get("src", "").startswith(sc.src):
+                st["src"] = os.path.join("/repo", os.path.relpath(st["src"], sc.src))
+        # replay the minimised history twice more: it must fail the same way
+        ok = 0
+        for _ in range(2):
+            hcopy = json.loads(json.dumps(hh))
+            for st in hcopy["steps"]:
+                if st.get("src", "").startswith("/repo/"):
+                    st["src"] = os.path.join(sc.src, os.path.relpath(st["src"], "/repo"))
+            _, v2 = ex.run_history(hcopy)
+            if v2 and v2["sig"] == v["sig"]:
+                ok += 1
+        v = dict(v, step=len(hh["steps"]) - 1)
+        rf = {"property": "C18", "engine": "C-simproc", "seed": seed, "tree": sc.tree_hash, "history": hh, "violation": v, "minimised": {"candidates_tried": tries}, "replays": {"attempts": 2, "recurred": ok}}
+        path = os.path.join(rdir, "C18-%s.json" % hashlib.sha256(sig.encode()).hexdigest()[:10])
+        json.dump(rf, open(path, "w"), indent=1)
+        if ok != 2:
+            raise HarnessError("C18 violation %s does not replay deterministically; file %s" % (sig, path))
+        print("VIOLATION property=C18 replay=%s" % path, flush=True)
+        log("  %s step=%s argv=%s: %s (%d histories; minimised to %d steps)" % (sig, v["step"], v["argv"], v["detail"], len(items), len(hh["steps"])))
+        nviol += 1
+
+    # model validation: fault-free histories again with the uninstrumented binary on a real directory
+    mv = {"histories": 0, "steps": 0, "mismatches": []}
+    clean = [(h, rec) for h, rec in recs if not any(v[0]["id"] == h["id"] for v in viols)]
+    for h, rec in clean[: (80 if tier == "quick" else 400)]:
+        m = c18.real_replay(sc, acv_plain, ex, h, rec)
+        if m is None:
+            continue
+        mv["histories"] += 1
+        mv["steps"] += rec.get("real_checked", 0)
+        mv["mismatches"] += m[:3]
+    if mv["mismatches"]:
+        raise HarnessError("simulated disk disagrees with the real file system (defect of simos, not of the repository): %s" % mv["mismatches"][:3])
+
+    wall = time.time() - t0
+    faults, probes = {}, {}
+    sigs = set()
+    nruns = 0
+    for h, rec in recs:
+        for k, v in rec["faults_fired"].items():
+            faults[k] = faults.get(k, 0) + v
+        for k, v in rec["probes"].items():
+            probes[k] = probes.get(k, 0) + v
+        nruns += sum(1 for s in rec["steps"] if "argv" in s)
+        if rec["nontrivial"]:
+            sigs.add(hashlib.sha256(json.dumps(h["steps"], sort_keys=True).encode()).hexdigest()[:16])
+    want_probes = ["existing_file_longer_than_report", "prior_state_longer", "prior_state_other_report", "prior_state_readonly", "prior_state_directory", "dirty_restart", "report_durable_after_success",
+                   "failure_bad_arguments", "failure_library_error", "stdout_success_generate", "stdout_success_normalize", "stdout_success_validate"]
+    cov = {
+        "evaluations": len(recs),
+        "distinct_nontrivial": len(sigs),
+        "rule": ("seeded histories of 2..10 steps on one simulated disk: env steps put the output path into a prior state (absent, empty, shorter, longer with a non-whitespace pattern, the report of another pair, read-only, a directory, inside a missing directory), "
+                 "run steps invoke the real CLI code as a fresh process (validate to stdout, validate to OUT repeatedly, generate, normalize, wrong argument counts, unknown command, missing inputs), optionally with one injected fault (EIO on read, EACCES on open, ENOSPC after k bytes, EIO on sync), "
+                 "dirty restarts discard non-durable content. After every run step: exit status, stdout and the bytes of OUT are compared with the library value computed by a reference process on the same disk image and clock. "
+                 "Non-trivial: the output path had a prior state other than absent, or a fault fired; distinct = hash of the step list."),
+        "samples": [{"history": h["steps"][4:], "record": rec["steps"][4:]} for h, rec in recs[:2]],
+        "cli_processes": ex.procs, "reference_processes": ex.ref_procs, "run_steps": nruns,
+        "fault_kinds_fired": faults, "probes": probes, "probes_never_hit": [p for p in want_probes if not probes.get(p)],
+        "model_validation_against_real_fs": mv,
+        "runs_per_hour": int(len(recs) / wall * 3600), "seeds_per_hour": int(len(recs) / wall * 3600),
+        "simulated_time": {"unit": "CLI invocations on the simulated disk", "value": ex.procs},
+        "components": COMPONENTS, "tree_hash": sc.tree_hash,
+    }
+    vlib.write_evidence("C18", tier, seed, "fault_enumeration", cov, wall, nviol,
+                        ["the file system is simos (POSIX open/create/truncate/append/permission semantics for an ordinary user); a sample of fault-free histories is re-run with the uninstrumented binary on a real directory and must agree",
+                         "crash durability of the written report is recorded as a probe only: the statement does not promise it",
+                         "for a read-only / directory / missing-directory output path either a failure (non-zero exit, no report on stdout, path unchanged) or a success that leaves exactly the report is accepted"])
+    return 1 if nviol else 0
+
+
 def free_running_pass(sc, racebin, plain, seed):
     return {"violations": 0, "note": "not built yet"}
 
 
-CHECKS = {"C04": check_c04, "C06": check_c06, "C09": check_c09, "C10": check_c10}
+CHECKS = {"C18": check_c18, "C04": check_c04, "C06": check_c06, "C09": check_c09, "C10": check_c10}
 
 
 def main():
